@@ -50,6 +50,7 @@ class Report:
         self.assumptions = []
         self.explanation = ''
         self.extra = {}
+        self._dedupe = {}
 
     # ---- declaring ---------------------------------------------------------
     def rule(self, rule, doc, floor=1):
@@ -71,6 +72,11 @@ class Report:
         verdict = 'holds' if ok else 'violation'
         if not ok and (self.pid, full) in self.known:
             verdict = 'known-finding'
+        dk = (full, verdict)
+        if dk in self._dedupe:
+            self._dedupe[dk] += 1      # same obligation reached again (other path / type class): counted, not repeated
+            return ok
+        self._dedupe[dk] = 1
         self.obs.append({'rule': rule, 'key': full, 'verdict': verdict, 'what': what,
                          'where': where, 'facts': facts})
         parts = key.split(':')
@@ -164,6 +170,7 @@ class Report:
             'wall_s': round(time.time() - self.t0, 3),
             'violations': len(viol),
         }
+        ev['coverage']['instances_checked'] = sum(self._dedupe.values())
         ev['coverage'].update(self.extra)
         with open(os.path.join(EVDIR, self.pid + '.json'), 'w') as f:
             json.dump(ev, f, indent=1, default=str)
